@@ -26,7 +26,7 @@ typedef struct {
     int shape;           /* file shape */
     int bound;           /* preemption bound */
 } scn_t;
-static const char* MODE_N[] = { "fread", "mmap", "buffer" };
+static const char* MODE_N[] = { "fread", "mmap", "buffer", "mmap+fread" };      /* the last: independent readers on different I/O paths (reader 0 mapped, reader 1 stdio, ...) */
 static const char* codec_name(int c) { return c == CODEC_NONE ? "U" : c == CODEC_SNAPPY ? "S" : c == CODEC_ZSTD ? "Z" : c == CODEC_GZIP ? "G" : "L"; }
 static const char* scn_desc(const scn_t* s) { static char b[200]; snprintf(b, sizeof b, "sched:scn=%c;mode=%s;nt=%d;codec=%s;bs=%d;shape=%d;c=%d", s->kind ? 'B' : 'A', MODE_N[s->mode], s->nt, codec_name(s->codec), s->bs, s->shape, s->bound); return b; }
 
@@ -51,11 +51,12 @@ static void build_file(const scn_t* s) {
 }
 
 /* runs in the execution process, on a scheduler thread: open, batch-read everything, close */
-typedef struct { const scn_t* s; int nthreads_cfg; uint64_t hash; char detail[160]; } rd_job;
+typedef struct { const scn_t* s; int nthreads_cfg; uint64_t hash; char detail[160]; int idx; } rd_job;
 static void read_all(rd_job* j) {
     const scn_t* s = j->s; uint64_t h = 0xc07; char* d = j->detail; size_t dn = 0; d[0] = 0;
-    carquet_error_t err = CARQUET_ERROR_INIT; carquet_reader_options_t opt; carquet_reader_options_init(&opt); opt.use_mmap = s->mode == 1; opt.verify_checksums = true;
-    carquet_reader_t* rd = s->mode == 2 ? carquet_reader_open_buffer(IMG.p, IMG.n, &opt, &err) : carquet_reader_open(PATH, &opt, &err);
+    int mode = s->mode == 3 ? (j->idx % 2 == 0 ? 1 : 0) : s->mode;
+    carquet_error_t err = CARQUET_ERROR_INIT; carquet_reader_options_t opt; carquet_reader_options_init(&opt); opt.use_mmap = mode == 1; opt.verify_checksums = true;
+    carquet_reader_t* rd = mode == 2 ? carquet_reader_open_buffer(IMG.p, IMG.n, &opt, &err) : carquet_reader_open(PATH, &opt, &err);
     if (!rd) { snprintf(d, 160, "open:%d", err.code); j->hash = mc_mix(h, (uint64_t)err.code); return; }
     carquet_batch_reader_config_t cfg; carquet_batch_reader_config_init(&cfg); cfg.batch_size = s->bs; cfg.num_threads = j->nthreads_cfg;
     carquet_batch_reader_t* br = carquet_batch_reader_create(rd, &cfg, &err);
@@ -85,7 +86,7 @@ static void scenario_body(const scn_t* s, int reference, sch_trace* tr) {
     rd_job jobs[4]; memset(jobs, 0, sizeof jobs);
     if (s->kind == 0) { jobs[0].s = s; jobs[0].nthreads_cfg = reference ? 1 : s->nt; read_all(&jobs[0]); tr->outcome = jobs[0].hash; snprintf(tr->detail, sizeof tr->detail, "%s", jobs[0].detail); return; }
     int k = reference ? 1 : s->nt, tid[4];
-    for (int i = 0; i < k; i++) { jobs[i].s = s; jobs[i].nthreads_cfg = 1; }
+    for (int i = 0; i < k; i++) { jobs[i].s = s; jobs[i].nthreads_cfg = 1; jobs[i].idx = i; }
     if (reference) { read_all(&jobs[0]); tr->outcome = jobs[0].hash; snprintf(tr->detail, sizeof tr->detail, "%s", jobs[0].detail); return; }
     for (int i = 0; i < k; i++) tid[i] = sch_spawn(user_thread, &jobs[i]);
     for (int i = 0; i < k; i++) sch_join(tid[i]);
@@ -204,10 +205,11 @@ static void enumerate(void) {
     int maxbound = 3;
     for (int bound = 0; bound <= maxbound; bound++) {
         char st[64]; snprintf(st, sizeof st, "deviation-bound-%d", bound); mc_stage(st);
-        for (int kind = 0; kind < 2; kind++) for (int mode = 0; mode < 3; mode++) for (int ci = 0; ci < 5; ci++) for (int nti = 0; nti < 6; nti++) for (int bsi = 0; bsi < 2; bsi++) for (int shape = 0; shape < 6; shape++) {
+        for (int kind = 0; kind < 2; kind++) for (int mode = 0; mode < 4; mode++) for (int ci = 0; ci < 5; ci++) for (int nti = 0; nti < 6; nti++) for (int bsi = 0; bsi < 2; bsi++) for (int shape = 0; shape < 6; shape++) {
             static const int NTA[] = { 2, 3, 4, 8, 16, 1 }; int nt = NTA[nti];
             scn_t s = { kind, mode, CODECS[ci], nt, bsi ? 12 : 4, shape, bound };
             if (nt == 1) continue;
+            if (mode == 3 && !(kind == 1 && nt == 2 && shape == 0 && bsi == 1 && ci <= 1 && bound <= 2)) continue;      /* mixed I/O paths: two independent readers, up to two deviations */
             if (ci >= 3 && (bound > 1 || nt > 3 || bsi == 0 || (shape != 0 && shape != 3) || (kind == 1 && (nt != 2 || shape != 0)))) continue;      /* GZIP and LZ4: whole-page batches, 2-3 threads, two shapes, c <= 1 */
             if (bound == 3 && !(kind == 0 && mode == 0 && nt == 2 && ((shape == 5 && ci == 1 && bsi == 1) || (mc_thorough() && shape == 0 && ci == 0 && bsi == 0)))) continue;     /* three deviations: the two-column large-page file (a failed prefetch is retried in the main region, so a wrong result needs a third switch) */
             if (shape >= 4) {                                                                                   /* large pages: one batch for the whole file, SNAPPY and ZSTD (page loads inside the team), 2-3 threads */
@@ -217,7 +219,7 @@ static void enumerate(void) {
             bool base = shape == 0 && bsi == 0;                                                               /* base shape: 3 columns x 2 pages, batch smaller than a page */
             if (kind == 1) {                                                                                    /* B: 2-3 user threads, batch >= page, two shapes */
                 if (nt > 3 || bsi == 0 || shape > 1) continue;
-                if (bound == 2 && !(mc_thorough() && nt == 2 && shape == 0 && ((mode == 0 && ci == 0) || (mode == 1 && ci == 2)))) continue;
+                if (bound == 2 && mode != 3 && !(mc_thorough() && nt == 2 && shape == 0 && ((mode == 0 && ci == 0) || (mode == 1 && ci == 2)))) continue;
             } else {
                 if (nt >= 8 && (bound > 1 || !base)) continue;                                                 /* wide teams: c <= 1, base shape */
                 if (bound == 2 && shape < 4) {
